@@ -55,11 +55,29 @@ pub fn classes() -> &'static Vec<LexClass> {
         for h in ["$0", "$12"] {
             v.push(lc(&format!("hw:{h}"), h, "HARDWAREIDENT"));
         }
-        for n in ["0", "12", "1_000", "0b101", "0B1_0", "0o17", "0O1_7", "0x1F", "0Xde_ad", "0xb", "0x1e3", "007"] {
+        for n in [
+            "0", "12", "1_000", "007", "9_", "0b101", "0B1_0", "0b_1", "0b1_", "0o17", "0O1_7", "0o_7", "0x1F", "0Xde_ad", "0xb", "0x1e3", "0xE", "0x_f",
+            "0XABCDEF", "0xabcdef", "0b0", "0o0", "0x0",
+        ] {
             v.push(lc(&format!("int:{n}"), n, "INT_NUMBER"));
         }
-        for f in ["1.5", "1.", ".5", "1e3", "1E-3", "1_0.2_5e+1_0", "0.0", "2.e2"] {
-            v.push(lc(&format!("float:{f}"), f, "FLOAT_NUMBER"));
+        // float shapes: the full product of integer part x fraction x exponent marker/sign
+        for ip in ["", "1", "12_3", "0"] {
+            for fr in ["", ".", ".5", ".2_5"] {
+                for ex in ["", "e3", "E3", "e+3", "E+3", "e-3", "E-3", "e1_0", "E-1_0"] {
+                    if fr.is_empty() && ex.is_empty() {
+                        continue; // an integer
+                    }
+                    if ip.is_empty() && (fr.is_empty() || fr == ".") {
+                        continue; // not a number
+                    }
+                    if fr == "." && !ex.is_empty() {
+                        continue; // `1.e3`: digits are required between `.` and the exponent in OpenQASM 3
+                    }
+                    let f = format!("{ip}{fr}{ex}");
+                    v.push(lc(&format!("float:{f}"), &f, "FLOAT_NUMBER"));
+                }
+            }
         }
         for (num, kind) in [("10", "INT_NUMBER"), ("1.5", "FLOAT_NUMBER")] {
             for u in UNITS.iter().chain(["im"].iter()) {
@@ -75,18 +93,21 @@ pub fn classes() -> &'static Vec<LexClass> {
         for b in ["\"0101\"", "\"0\"", "\"0_1\"", "\"1111_0000\""] {
             v.push(lc(&format!("bits:{b}"), b, "BIT_STRING"));
         }
-        for s in ["\"abc\"", "\"a\\\"b\"", "'sq'", "\"stdgates.inc\"", "\"x y/z.qasm\"", "\"\""] {
+        for s in ["\"abc\"", "\"a\\\"b\"", "'sq'", "\"stdgates.inc\"", "\"x y/z.qasm\"", "\"\"", "\"//\"", "\"/* x\"", "\"a'b\"", "'a\"b'", "\"01a\"", "\"0 1\""] {
             v.push(lc(&format!("str:{s}"), s, "STRING"));
         }
-        v.push(LexClass { name: "comment:block".into(), text: "/* c */".into(), expect: vec![], line_terminated: false });
-        v.push(LexClass { name: "comment:nested".into(), text: "/* a /* b */ c */".into(), expect: vec![], line_terminated: false });
-        v.push(LexClass { name: "comment:line".into(), text: "// c ; x".into(), expect: vec![], line_terminated: true });
-        for p in ["pragma foo bar", "#pragma x y z", "pragma a; b /* c */"] {
+        for (i, c) in ["/* c */", "/* a /* b */ c */", "/**/", "/***/", "/*/ x */", "/*// y */", "/* * / */", "/* \" ' */", "/*\n int x; \n*/", "/** doc **/"].iter().enumerate() {
+            v.push(LexClass { name: format!("comment:block{i}"), text: c.to_string(), expect: vec![], line_terminated: false });
+        }
+        for (i, c) in ["// c ; x", "//", "///", "// /* open", "//*/ x", "// \" unterminated"].iter().enumerate() {
+            v.push(LexClass { name: format!("comment:line{i}"), text: c.to_string(), expect: vec![], line_terminated: true });
+        }
+        for p in ["pragma foo bar", "#pragma x y z", "pragma a; b /* c */", "pragma // x", "pragma \"q"] {
             let mut c = lc(&format!("pragma:{p}"), p, "PRAGMA");
             c.line_terminated = true;
             v.push(c);
         }
-        for a in ["@ann a b", "@reversible", "@a.b c // d"] {
+        for a in ["@ann a b", "@reversible", "@a.b c // d", "@a /* b", "@a \"q"] {
             let mut c = lc(&format!("annotation:{a}"), a, "ANNOTATION");
             c.line_terminated = true;
             v.push(c);
@@ -210,16 +231,23 @@ fn check_sequence(seq: &[usize], seps: &[usize], obs: &mut Obs) {
         // (lexeme class family, right neighbour family, separator)
         let fam = |n: &str| n.split(':').next().unwrap_or("").to_string();
         let mut acc = 0usize;
+        let mut best = seq.len().saturating_sub(1);
         for (i, &ci) in seq.iter().enumerate() {
-            let c = &cl[ci];
-            let n = c.expect.len();
-            if pos < acc + n.max(1) || i + 1 == seq.len() {
-                let right = seq.get(i + 1).map(|&r| fam(&cl[r].name)).unwrap_or_else(|| "end".into());
-                let sep = if i + 1 < seq.len() { seps[i % seps.len()] } else { 9 };
-                return format!("{}/{}/sep{}", c.name, right, sep);
+            let n = cl[ci].expect.len();
+            if n > 0 && pos < acc + n {
+                best = i;
+                break;
             }
             acc += n;
         }
+        {
+            let i = best;
+            let c = &cl[seq[i]];
+            let right = seq.get(i + 1).map(|&r| fam(&cl[r].name)).unwrap_or_else(|| "end".into());
+            let sep = if i + 1 < seq.len() { seps[i % seps.len()] } else { 9 };
+            return format!("{}/{}/sep{}", c.name, right, sep);
+        }
+        #[allow(unreachable_code)]
         "?".into()
     };
     match observe(&text) {
